@@ -299,19 +299,33 @@ def closure_param_interval(body, idx, depth, env):
     parent = body.facts.bodies.get(body.rec.get('parent') or '')
     if parent is None or depth > 40:
         return None
+    direct = None
+    n_direct = 0
     for i in parent.normal_blocks:
         t = parent.blocks[i]['term']
         if t['k'] != 'call' or not t.get('callee'):
             continue
-        for a in t['args']:
+        path = t['callee']['path']
+        for k, a in enumerate(t['args']):
             ae = strip(parent.expr(a), transparent=False)
             if ae[0] == 'aggr' and ae[1] == 'closure:' + body.path:
-                path = t['callee']['path']
                 if re.search(r'Option::<.*>::(map|map_or|map_or_else|and_then|filter|is_some_and|inspect)$', path) and idx == 2:
                     o = parent.expr(t['args'][0])
                     return interval(parent, ('field', ('downcast', o, 'Some'), '0', 'core::option::Option.0'), depth + 1, env)
+                if k == 0 and len(t['args']) == 2 and (re.search(r'ops::(function::)?Fn(Mut|Once)?::call(_mut|_once)?$', path) or path == body.path):
+                    # `f(a, b)` in the creating function (after helper splicing): Fn::call(&f, (a, b))
+                    tup = strip(parent.expr(t['args'][1]), transparent=False)
+                    if tup[0] == 'aggr' and tup[1] == 'tuple' and idx - 2 < len(tup[2]):
+                        iv = interval(parent, tup[2][idx - 2], depth + 1, env)
+                        if iv is None:
+                            return None
+                        direct = iv if n_direct == 0 else union(direct, iv)
+                        n_direct += 1
+                        continue
+                if re.search(r'ops::(function::)?Fn(Mut|Once)?::call(_mut|_once)?$', path) or path == body.path:
+                    continue
                 return None
-    return None
+    return direct
 
 
 _PARAM_CACHE = {}
